@@ -130,6 +130,10 @@ def run_verus_unit(unit, threads=8, rlimit=None):
     for d in errs:
         msg = d.get('message', '')
         spans = d.get('spans', [])
+        # spans inside vstd (e.g. the requires clause of Result::unwrap) carry line numbers of another file
+        own = [s for s in spans if os.path.basename(s.get('file_name', '')) == os.path.basename(r.path or '')]
+        if own:
+            spans = own
         prim = [s for s in spans if s.get('is_primary')] or spans
         lines = [s['line_start'] for s in spans]
         item = None
